@@ -79,21 +79,21 @@ ANCHORS = [
     "gemseo.core.mdo_functions.consistency_constraint:ConsistencyConstraint._jac_to_wrap",
 ]
 MIN_COUNTERS = {
-    "quick": {"value_oracle_evaluations": 4200, "value_MDF": 1250, "value_IDF": 2500, "value_DisciplinaryOpt": 400,
-              "derivative_oracle_evaluations": 4200, "derivative_MDF": 1250, "derivative_IDF": 2500,
-              "derivative_DisciplinaryOpt": 400, "consistency_oracle_evaluations": 1200,
-              "consistency_jacobian_vs_value_checked": 850, "off_equilibrium_oracle_evaluations": 800,
-              "space_oracle_evaluations": 650, "mask_roundtrip_checked": 650, "idf_missing_coupling_refused": 180,
-              "mdf_idf_points_compared": 600, "mdf_disciplinaryopt_points_compared": 190,
-              "optimum_oracle_evaluations": 75, "optimum_MDF": 24, "optimum_IDF": 45, "optimum_DisciplinaryOpt": 4},
-    "thorough": {"value_oracle_evaluations": 73000, "value_MDF": 21500, "value_IDF": 43000,
-                 "value_DisciplinaryOpt": 7500, "derivative_oracle_evaluations": 72000, "derivative_MDF": 21000,
-                 "derivative_IDF": 43000, "derivative_DisciplinaryOpt": 7500, "consistency_oracle_evaluations": 20000,
-                 "consistency_jacobian_vs_value_checked": 14000, "off_equilibrium_oracle_evaluations": 13500,
-                 "space_oracle_evaluations": 11000, "mask_roundtrip_checked": 11000,
-                 "idf_missing_coupling_refused": 3000, "mdf_idf_points_compared": 10000,
-                 "mdf_disciplinaryopt_points_compared": 3500, "optimum_oracle_evaluations": 740, "optimum_MDF": 225,
-                 "optimum_IDF": 435, "optimum_DisciplinaryOpt": 60},
+    "quick": {"value_oracle_evaluations": 9800, "value_MDF": 2900, "value_IDF": 5800, "value_DisciplinaryOpt": 1000,
+              "derivative_oracle_evaluations": 9800, "derivative_MDF": 2900, "derivative_IDF": 5800,
+              "derivative_DisciplinaryOpt": 1000, "consistency_oracle_evaluations": 2700,
+              "consistency_jacobian_vs_value_checked": 1900, "off_equilibrium_oracle_evaluations": 1800,
+              "space_oracle_evaluations": 1500, "mask_roundtrip_checked": 1500, "idf_missing_coupling_refused": 400,
+              "mdf_idf_points_compared": 1350, "mdf_disciplinaryopt_points_compared": 450,
+              "optimum_oracle_evaluations": 150, "optimum_MDF": 45, "optimum_IDF": 85, "optimum_DisciplinaryOpt": 12},
+    "thorough": {"value_oracle_evaluations": 139000, "value_MDF": 41000, "value_IDF": 82000,
+                 "value_DisciplinaryOpt": 14500, "derivative_oracle_evaluations": 139000, "derivative_MDF": 41000,
+                 "derivative_IDF": 82000, "derivative_DisciplinaryOpt": 14500, "consistency_oracle_evaluations": 38000,
+                 "consistency_jacobian_vs_value_checked": 27000, "off_equilibrium_oracle_evaluations": 25500,
+                 "space_oracle_evaluations": 21000, "mask_roundtrip_checked": 21000,
+                 "idf_missing_coupling_refused": 5800, "mdf_idf_points_compared": 19000,
+                 "mdf_disciplinaryopt_points_compared": 6500, "optimum_oracle_evaluations": 1250, "optimum_MDF": 380,
+                 "optimum_IDF": 750, "optimum_DisciplinaryOpt": 130},
 }
 SHARD_TIMEOUT = {"quick": 400, "thorough": 2400}
 
@@ -109,10 +109,10 @@ INNER = ["MDAJacobi", "MDAGaussSeidel", "MDANewtonRaphson"]
 
 def shards(tier, seed):
     n = 16
-    per = {"quick": 24, "thorough": 420}[tier]
-    opt = {"quick": 3, "thorough": 30}[tier]
+    per = {"quick": 56, "thorough": 800}[tier]
+    opt = {"quick": 6, "thorough": 50}[tier]
     return [{"seed": subseed(seed, PID, i), "n_cases": per, "n_opt": opt,
-             "budget_s": {"quick": 200, "thorough": 1500}[tier]} for i in range(n)]
+             "budget_s": {"quick": 330, "thorough": 1800}[tier]} for i in range(n)]
 
 
 # =========================================================================== generation
@@ -927,6 +927,7 @@ def run_opt_case(case, rep):
         wanted.append(("DisciplinaryOpt", None))
     for which, norm in wanted:
         key = which if norm is None else f"IDF[{'norm' if norm else 'raw'}]"
+        duplicate = False
         try:
             scenario, n_builtin = build_scenario(ctx, which, normalize=norm,
                                                  start_at_equilibrium=which == "IDF" and case["start_at_equilibrium"])
@@ -937,7 +938,8 @@ def run_opt_case(case, rep):
                              xtol_rel=1e-14, xtol_abs=1e-14, eq_tolerance=1e-9, ineq_tolerance=1e-9)
             res = scenario.optimization_result
         except Exception as e:
-            rep.violation(f"C17:opt:{which}:exception:{type(e).__name__}:{feat}", "optimum", case, observed=_exc(e),
+            tag = "duplicate-constraint-names" if duplicate else feat
+            rep.violation(f"C17:opt:{which}:exception:{type(e).__name__}:{tag}", "optimum", case, observed=_exc(e),
                           expected={"x_opt": ref["x"], "f_opt": ref["f"]})
             continue
         n_iter = len(form.optimization_problem.database)
